@@ -120,6 +120,10 @@ func c07Cases(tier string, seed int64) []core.Case {
 		}})
 	}
 	cases = append(cases, sharedFlushCases("C07", tier)...)
+	for _, mp := range []int{0, 4} {
+		mp := mp
+		cases = append(cases, core.Case{ID: fmt.Sprintf("flush-after-tversion/maxpend=%d", mp), Run: func(ctx *core.Ctx) core.Result { return c07FlushAfterVersion(ctx, mp) }})
+	}
 	return cases
 }
 
@@ -778,4 +782,103 @@ func c07Probe(e *c07env, target *wire.Msg, fail func(string, string, map[string]
 	case wire.Tremove:
 		// left open: remove gives up its fid whatever happens
 	}
+}
+
+// c07FlushAfterVersion: a request is held in the implementation, the client renegotiates (Tversion: the server forgets
+// the session and will not send the old request's reply), then flushes the old tag. The Tflush is answered — at once
+// when the implementation cancels the request on FlushOp (req.Flush()), when the request finishes otherwise — and
+// afterwards the old tag carries a new request like any other.
+func c07FlushAfterVersion(ctx *core.Ctx, maxpend int) core.Result {
+	var res core.Result
+	for _, mode := range []string{"cancel", "ignore", "noflushop", "kept"} {
+		for _, kind := range []uint8{wire.Tstat, wire.Tread, wire.Twalk} {
+			if len(res.Violations) > 0 {
+				return res
+			}
+			ctx.Beat()
+			s, e, _, ok := c08setup(Config{Dotu: true, Msize: 8192, Maxpend: maxpend, Flush: mode != "noflushop"})
+			if !ok {
+				res.Inconclusive = "flush-after-tversion: setup failed"
+				return res
+			}
+			c := e.c
+			det := map[string]interface{}{"maxpend": maxpend, "flushop": mode, "held": wire.TypeName(kind)}
+			old := e.next()
+			p := script.NewPlan()
+			p.Gate, p.Entered = make(chan struct{}), make(chan struct{})
+			if mode == "kept" {
+				// the implementation keeps the request (its callback returned) and answers it later, after the flush
+				p.Gate = nil
+				p.NoAnswer = true
+			}
+			s.Ops.SetPlan(c.ID, old, p)
+			if mode == "cancel" {
+				s.Ops.SetFlushMode(c.ID, old, "cancel")
+			}
+			held := &wire.Msg{Type: kind, Tag: old, Fid: e.root}
+			switch kind {
+			case wire.Tread:
+				if !e.ok(&wire.Msg{Type: wire.Twalk, Fid: e.root, Newfid: 40, Wname: []string{"f1"}}) || !e.ok(&wire.Msg{Type: wire.Topen, Fid: 40, Mode: 0}) {
+					res.Inconclusive = "flush-after-tversion: fid setup failed"
+					c.Hangup()
+					return res
+				}
+				held.Fid, held.Count = 40, 16
+			case wire.Twalk:
+				held.Newfid = 41
+				held.Wname = []string{"d1"}
+			}
+			_ = c.Send(held)
+			select {
+			case <-p.Entered:
+			case <-time.After(W):
+				res.Inconclusive = "flush-after-tversion: the request never started"
+				c.Hangup()
+				return res
+			}
+			if mode == "kept" {
+				s.Ctl.WaitPassed("process.done", c.ID, int(old), 1, 2*time.Second)
+			}
+			if r, err := c.Version(8192, "9P2000.u", W); err != nil || r.Msg == nil || r.Msg.Type != wire.Rversion {
+				res.Inconclusive = "flush-after-tversion: second Tversion not answered"
+				if p.Gate != nil {
+					close(p.Gate)
+				}
+				c.Hangup()
+				return res
+			}
+			ftag := e.next()
+			_ = c.Send(&wire.Msg{Type: wire.Tflush, Tag: ftag, Oldtag: old})
+			res.Evals++
+			released := false
+			if mode == "ignore" || mode == "noflushop" {
+				// nothing cancels the request: it has to finish for the flush to be answered
+				s.Ctl.WaitPassed("flush.decided", c.ID, int(ftag), 1, 2*time.Second)
+				close(p.Gate)
+				released = true
+			}
+			if mode == "kept" {
+				s.Ctl.WaitPassed("flush.decided", c.ID, int(ftag), 1, 2*time.Second)
+				s.Ops.AnswerPending(c.ID, old)
+			}
+			rp, err := c.WaitTag(ftag, W)
+			if err != nil || rp.Msg == nil || rp.Msg.Type != wire.Rflush {
+				res.Violate(fmt.Sprintf("C07;flush-after-tversion;unanswered;%s", mode),
+					fmt.Sprintf("a %s is held in the implementation, the client sends Tversion and then Tflush of the old tag (FlushOp: %s): no Rflush", wire.TypeName(kind), mode), det)
+			}
+			// the old tag again
+			if a, err := c.Rpc(&wire.Msg{Type: wire.Tattach, Tag: old, Fid: 77, Afid: wire.NOFID, Uname: "root", Nuname: 0}, W); err != nil || a.Msg == nil || a.Msg.Type != wire.Rattach {
+				res.Violate(fmt.Sprintf("C07;flush-after-tversion;old-tag-stuck;%s", mode),
+					fmt.Sprintf("after Tversion and the answered (or expected) Rflush a new request under the old tag got %v", a), det)
+			}
+			if !released && p.Gate != nil {
+				close(p.Gate)
+			}
+			c.Quiesce(W)
+			res.Sig(fmt.Sprintf("flush-after-tversion|%s|%s|mp=%d", mode, wire.TypeName(kind), maxpend))
+			c.Hangup()
+		}
+	}
+	res.Sample(map[string]interface{}{"scenario": "request held, Tversion, Tflush of the old tag, old tag reused", "maxpend": maxpend})
+	return res
 }
